@@ -65,6 +65,7 @@ int main(int argc, char** argv)
   vf_config.spurious = (int)vf::argll(argc, argv, "--spurious", 1);
   vf_config.plainPoints = (int)vf::argll(argc, argv, "--plain", 0);
   vf_config.processors = (int)vf::argll(argc, argv, "--processors", 1);
+  vf_config.delayBounded = (int)vf::argll(argc, argv, "--delay-bounded", 0);
   vf_config.clockStart = vf::argll(argc, argv, "--clock-start-ns", 1700000000LL * 1000000000LL);
   g_execTimeoutMs = (int)vf::argll(argc, argv, "--exec-timeout-ms", 20000);
   long long deadline = vf::argll(argc, argv, "--deadline", 0);
@@ -72,6 +73,7 @@ int main(int argc, char** argv)
   vf_shared = (VfShared*)mmap(0, sizeof(VfShared), PROT_READ | PROT_WRITE, MAP_SHARED | MAP_ANONYMOUS, -1, 0);
   if(vf_shared == MAP_FAILED) { perror("mmap"); return 3; }
   std::string label = vf::fmt("scenario=%s variant=%d pb=%d eb=%d%s", vf_scenario_name(g_scenario), g_variant, vf_config.preemptionBound, vf_config.envBound, vf_config.plainPoints ? " fine" : "");
+  if(vf_config.delayBounded) label += " delay-bounded";
 
   const char* one = vf::arg(argc, argv, "--replay-case");
   if(one)
